@@ -311,3 +311,178 @@ Proof.
     destruct (all_some _); [|discriminate].
     destruct (set_match _ _ _); inversion H; subst; exact Ht.
 Qed.
+
+(* ---- the expansion hands its children bindings, never the asserted expression ---- *)
+
+Lemma apply_ops_root_free : forall o base, root_free base = true -> root_free (apply_ops base o) = true.
+Proof.
+  fix IH 1. intros o base H. destruct o as [count sp|m nsp sp args|sp|f nsp sp|i sp|ix sp|sp ops]; cbn [apply_ops root_free]; auto.
+  - induction count as [|c IHc]; cbn; auto.
+  - revert base H. induction ops as [|x r IHr]; intros base H; cbn; auto.
+Qed.
+
+Lemma with_tail_root_free j ops base noops fpat :
+  root_free base = true -> root_free noops = true ->
+  (forall e, root_free e = true -> stmt_root_free (expand j fpat e) = true) ->
+  stmt_root_free (with_tail ops base noops (expand j fpat)) = true.
+Proof.
+  intros Hb Hn H. unfold with_tail. destruct (tail_operations ops) as [|t|]; cbn; auto.
+  destruct (ops_index_ok t); [apply H; apply apply_ops_root_free; exact Hb|reflexivity].
+Qed.
+
+Lemma forallb_flat_mapi {A} (f : nat -> A -> list stmt) : forall (l : list A) i,
+  (forall k x, In x l -> forallb stmt_root_free (f k x) = true) ->
+  forallb stmt_root_free (flat_map (fun x => x) (mapi_from f i l)) = true.
+Proof.
+  induction l as [|x l IH]; intros i H; cbn; [reflexivity|].
+  rewrite forallb_app, (H i x (or_introl eq_refl)), IH; [reflexivity|]. intros k y Hy. apply H. right; exact Hy.
+Qed.
+
+Theorem expand_root_free : forall j p e, root_free e = true -> stmt_root_free (expand j p e) = true.
+Proof.
+  intros j p; induction p as
+      [id x|id l s v|id op s x|id x parts|id x s|id x|id|id c
+      |id path rest fields IH|id path elems IH|id sp elems IH|id sp elems IH|id sp rest elems IH|id sp rest entries IH]
+      using pat_ind'; intros e He; cbn [expand stmt_root_free push_root_free mk_push ps_actual]; rewrite ?He; try reflexivity.
+  - (* struct *)
+    destruct path as [path|].
+    + destruct (existsb _ _); [reflexivity|]. cbn [stmt_root_free push_root_free mk_push ps_actual]. rewrite He. cbn.
+      apply forallb_forall. intros s Hs. apply in_map_iff in Hs as ([ops fpat] & <- & Hin). cbn.
+      destruct (root_field_name ops); [|reflexivity]. apply with_tail_root_free; try reflexivity.
+      intros e' He'. apply (proj1 (Forall_forall _ _) IH (ops, fpat) Hin). exact He'.
+    + cbn [stmt_root_free]. apply forallb_forall. intros s Hs. apply in_map_iff in Hs as ([ops fpat] & <- & Hin). cbn.
+      destruct (root_field_name ops); [|reflexivity]. destruct (field_name_index_ok f); [|reflexivity].
+      apply with_tail_root_free; cbn; try exact He.
+      intros e' He'. apply (proj1 (Forall_forall _ _) IH (ops, fpat) Hin). exact He'.
+  - (* enum *)
+    destruct elems as [|el elems]; cbn [stmt_root_free push_root_free mk_push ps_actual]; rewrite He; [reflexivity|]. cbn [andb].
+    unfold mapi. apply forallb_flat_mapi. intros k [ops ep] Hin. destruct (is_wild ep); [reflexivity|].
+    assert (Hp : forall e', root_free e' = true -> stmt_root_free (expand j ep e') = true)
+      by (intros e' He'; apply (proj1 (Forall_forall _ _) IH (ops, ep) Hin); exact He').
+    destruct ops; cbn; rewrite ?andb_true_r; [apply with_tail_root_free; try reflexivity; exact Hp|apply Hp; reflexivity].
+  - (* tuple *)
+    cbn [andb]. unfold mapi. apply forallb_flat_mapi. intros k [ops ep] Hin. destruct (is_wild ep); [reflexivity|].
+    assert (Hp : forall e', root_free e' = true -> stmt_root_free (expand j ep e') = true)
+      by (intros e' He'; apply (proj1 (Forall_forall _ _) IH (ops, ep) Hin); exact He').
+    destruct ops; cbn; rewrite ?andb_true_r; [apply with_tail_root_free; try reflexivity; exact Hp|apply Hp; reflexivity].
+  - (* slice *)
+    cbn [andb]. unfold mapi. apply forallb_flat_mapi. intros k el Hin. destruct (is_rest_range el || is_wild el); [reflexivity|].
+    cbn. rewrite andb_true_r. apply (proj1 (Forall_forall _ _) IH el Hin). reflexivity.
+  - (* set *)
+    cbn [andb]. apply forallb_forall. intros s Hs. apply in_map_iff in Hs as (el & <- & Hin).
+    apply (proj1 (Forall_forall _ _) IH el Hin). reflexivity.
+  - (* map *)
+    rewrite forallb_app. apply andb_true_intro. split.
+    + destruct rest; cbn; rewrite ?He; reflexivity.
+    + apply forallb_forall. intros s Hs. apply in_map_iff in Hs as ([k vp] & <- & Hin). cbn. rewrite He. cbn.
+      apply (proj1 (Forall_forall _ _) IH (k, vp) Hin). reflexivity.
+Qed.
+
+(* ---- how often the asserted expression itself is evaluated -------------------- *)
+
+(* forms that are meant to evaluate the expression they are handed exactly once *)
+Definition once_kind (p : pat) : bool :=
+  match p with
+  | PWild _ | PMap _ _ _ _ | PStruct _ None _ _ => false
+  | _ => true
+  end.
+
+Definition roots (o : outcome) : option nat := option_map (fun rt => cnt is_root_ev (snd rt)) o.
+
+Lemma test_root_count en r ts p rep tr sp id x :
+  p = mk_push sp id (ADebug (VRoot ts)) x ->
+  test en r [EvRoot] p None = Some (rep, tr) ->
+  (rep = [] /\ cnt is_root_ev tr = 1) \/ (rep <> [] /\ cnt is_root_ev tr = 2).
+Proof.
+  intros -> H. unfold test in H. destruct r as [[|]|]; [| |discriminate].
+  - inversion H; subst. left; split; reflexivity.
+  - unfold do_push, mk_push in H; cbn in H. inversion H; subst. right; split; [discriminate|reflexivity].
+Qed.
+
+Lemma pre_body_root_count en body rep tr :
+  forallb stmt_root_free body = true ->
+  seq2 (Some ([], [EvRoot])) (run_list body en) = Some (rep, tr) -> cnt is_root_ev tr = 1.
+Proof.
+  intros Hb H. destruct (run_list body en) as [[r2 t2]|] eqn:E; [|discriminate]. cbn in H. inversion H; subst.
+  cbn [cnt filter is_root_ev List.length]. f_equal.
+  eapply run_list_root; [|exact Hb|exact E]. apply Forall_forall. intros s _. apply exec_root_free.
+Qed.
+
+Lemma elems_root_free j (mk : nat -> name) : forall (elems : list (option fop * pat)) i,
+  forallb stmt_root_free (flat_map (fun x => x) (mapi_from (elem_stmts j mk) i elems)) = true.
+Proof.
+  intros elems i. apply forallb_flat_mapi. intros k [ops ep] _. unfold elem_stmts. destruct (is_wild ep); [reflexivity|].
+  destruct ops; cbn; rewrite andb_true_r.
+  - apply with_tail_root_free; try reflexivity. intros e' He'. apply expand_root_free; exact He'.
+  - apply expand_root_free; reflexivity.
+Qed.
+
+(* C08: for every form other than `_`, maps and wildcard structs (the known findings), the
+   asserted expression is evaluated once when the form's own test succeeds — in particular on
+   every passing run — and exactly twice when the root form itself is reported *)
+Theorem root_eval_count : forall j p ts en rep tr,
+  once_kind p = true ->
+  exec (expand j p (VRoot ts)) en = Some (rep, tr) ->
+  (cnt is_root_ev tr = 1 \/ (rep <> [] /\ cnt is_root_ev tr = 2)).
+Proof.
+  intros j p ts en rep tr Hk H.
+  destruct p as [id x|id l lsp sv|id op osp x|id x parts|id pattern psp|id x|id|id c
+                |id path rest fields|id path elems|id sp elems|id sp elems|id sp rest elems|id sp rest entries];
+    try discriminate; cbn [expand exec eval] in H.
+  - destruct (test_root_count _ _ _ _ _ _ _ _ _ eq_refl H) as [[_ ?]|[? ?]]; auto.
+  - destruct (parse_str_lit l); [|discriminate]. destruct (peel (e_root en)); try discriminate.
+    unfold test in H. destruct (String.eqb s s0); [inversion H; subst; left; reflexivity|].
+    unfold do_push, mk_push in H; cbn in H. inversion H; subst. left; reflexivity.
+  - destruct (ueval (e_caller en) x); [|discriminate].
+    destruct (test_root_count _ _ _ _ _ _ _ _ _ eq_refl H) as [[_ ?]|[? ?]]; auto.
+  - destruct (test_root_count _ _ _ _ _ _ _ _ _ eq_refl H) as [[_ ?]|[? ?]]; auto.
+  - destruct (peel (e_root en)); try discriminate.
+    destruct (test_root_count _ _ _ _ _ _ _ _ _ eq_refl H) as [[_ ?]|[? ?]]; auto.
+  - destruct (ueval (e_caller en) x); [|discriminate]. destruct (peel (e_root en)); try discriminate. destruct (peel v); try discriminate.
+    destruct (test_root_count _ _ _ _ _ _ _ _ _ eq_refl H) as [[_ ?]|[? ?]]; auto.
+  - destruct (test_root_count _ _ _ _ _ _ _ _ _ eq_refl H) as [[_ ?]|[? ?]]; auto.
+  - (* named struct *)
+    destruct path as [path|]; [|discriminate]. destruct (existsb _ _); [discriminate|]. cbn [exec eval] in H.
+    destruct (path_last path); [|discriminate].
+    destruct (peel (e_root en)); try discriminate;
+      try (destruct (test_root_count _ _ _ _ _ _ _ _ _ eq_refl H) as [[_ ?]|[? ?]]; auto; fail).
+    destruct (String.eqb name s); [|destruct (test_root_count _ _ _ _ _ _ _ _ _ eq_refl H) as [[_ ?]|[? ?]]; auto].
+    destruct (rest || _); [|discriminate]. destruct (pair_fields _ _); [|discriminate]. rewrite run_fix_eq in H.
+    left. eapply pre_body_root_count; [|exact H].
+    apply forallb_forall. intros st Hs. apply in_map_iff in Hs as ([ops fpat] & <- & Hin). cbn.
+    destruct (root_field_name ops); [|reflexivity]. apply with_tail_root_free; try reflexivity.
+    intros e' He'. apply expand_root_free; exact He'.
+  - (* enum *)
+    destruct elems as [|el elems]; cbn [exec eval] in H.
+    + destruct (path_last path); [|discriminate].
+      destruct (path_single path && _); [inversion H; subst; left; reflexivity|].
+      destruct (peel (e_root en)); try discriminate;
+        try (destruct (test_root_count _ _ _ _ _ _ _ _ _ eq_refl H) as [[_ ?]|[? ?]]; auto; fail).
+      destruct args; destruct (test_root_count _ _ _ _ _ _ _ _ _ eq_refl H) as [[_ ?]|[? ?]]; auto.
+    + destruct (path_last path); [|discriminate].
+      destruct (peel (e_root en)); try discriminate;
+        try (destruct (test_root_count _ _ _ _ _ _ _ _ _ eq_refl H) as [[_ ?]|[? ?]]; auto; fail).
+      destruct (String.eqb name s); [|destruct (test_root_count _ _ _ _ _ _ _ _ _ eq_refl H) as [[_ ?]|[? ?]]; auto].
+      destruct (pair_opts _ _ _ _); [|discriminate]. rewrite run_fix_eq in H.
+      left. eapply pre_body_root_count; [|exact H]. unfold mapi. apply (elems_root_free j NElem).
+  - (* tuple *)
+    destruct (peel (e_root en)); try discriminate. destruct (pair_opts _ _ _ _); [|discriminate]. rewrite run_fix_eq in H.
+    left. eapply pre_body_root_count; [|exact H]. unfold mapi. apply (elems_root_free j NTupleElem).
+  - (* slice *)
+    destruct (elements_of (e_root en)); [|discriminate].
+    destruct (slice_match _ _) as [[bs|]|]; [| |discriminate].
+    + rewrite run_fix_eq in H. left. eapply pre_body_root_count; [|exact H].
+      unfold mapi. apply forallb_flat_mapi. intros k el _. destruct (is_rest_range el || is_wild el); [reflexivity|].
+      cbn. rewrite andb_true_r. apply expand_root_free. reflexivity.
+    + unfold test, do_push, mk_push in H; cbn in H. inversion H; subst. right; split; [discriminate|reflexivity].
+  - (* set *)
+    destruct (elements_of (e_root en)); [|discriminate]. destruct (all_some _); [|discriminate].
+    destruct (set_match _ _ _); inversion H; subst; left; reflexivity.
+Qed.
+
+Corollary root_once_on_pass : forall j p ts en tr,
+  once_kind p = true ->
+  exec (expand j p (VRoot ts)) en = Some ([], tr) -> cnt is_root_ev tr = 1.
+Proof.
+  intros j p ts en tr Hk H. destruct (root_eval_count j p ts en [] tr Hk H) as [?|[Hne _]]; [assumption|contradiction].
+Qed.
